@@ -145,3 +145,29 @@ type RecDag struct {
 	Next *RecDag `json:"next,omitempty"`
 	Tail *RecDag `json:"tail,omitempty"`
 }
+
+// Distinct recursive types whose first members have the same Go type, reachable from one root.
+type RecDag2 struct {
+	ID    int      `json:"id"`
+	Title string   `json:"title"`
+	Next  *RecDag2 `json:"next,omitempty"`
+}
+
+type RecDag3 struct {
+	ID   int       `json:"id"`
+	Flag bool      `json:"flag"`
+	Kids []RecDag3 `json:"kids,omitempty"`
+	Up   *RecDag3  `json:"up,omitempty"`
+}
+
+type RecRootAB struct {
+	A *RecDag
+	B *RecDag2
+	C *RecDag3
+}
+
+type RecRootBA struct {
+	C []RecDag3
+	B map[string]*RecDag2
+	A RecDag
+}
